@@ -103,7 +103,9 @@ CHECKS["C17"] = dict(
 CHECKS["C14"] = dict(
     text="TLC explores every interleaving of quotes, discontinuations and clock moves over assets, futures and a futures chain "
          "(Exchange.tla) checking LastQuoteWins, DeadShowsNoPrice, ChainAlias, ExecSide and the action properties Isolation, "
-         "DeadStaysDead, HistoryAppendOnly, LeadMonotone; every model state is replayed into a real Exchange and the books seen "
+         "DeadStaysDead, HistoryAppendOnly, LeadMonotone; a second exploration has NO depth bound: under the abstraction fview "
+         "(what each book shows, whether it lives, its last history entry, the clock) the state space is finite and TLC runs to the "
+         "fixpoint, so the state invariants hold after interleavings of any length over the model's data; every model state is replayed into a real Exchange and the books seen "
          "through every key (contract, symbol string, chain; a second world has a three-contract chain addressed by its "
          "lead and, through a chain built with month=1, one contract down the curve) are compared; in the other direction random executions recorded "
          "from the real Exchange are validated line by line by TLC against ExchangeTrace.tla (every line consumed, verdict names "
